@@ -32,7 +32,7 @@ ASSUMPTIONS = ["the behaviour/default tables re-stated here are the documented o
 MONITORS = ["policy_outcome", "first_offender_named", "unmodified", "second_call_same", "roundtrip_sm_ssc_sm"]
 REQUIRED = ["returned", "InvalidPropertyException", "NotImplementedError", "partial_mapping", "default_with_blanks",
             "value_differs_from_default_only_by_inner_blanks_or_case", "default_padded_with_a_non_ascii_or_rare_blank",
-            "template_is_an_instance_of_a_subclass", "template_with_legacy_alias_keys",
+            "template_is_an_instance_of_a_subclass", "template_with_legacy_alias_keys", "template_chart_equal_to_a_source_chart",
             "nonempty_default_value", "two_offenders_table_order_differs", "template_with_charts", "chart_offender",
             "copy_anyway_simfile_level", "error_behaviour", "template_empty", "chart_property_after_notes",
             "custom_key_resembling_a_table_entry"]
@@ -150,7 +150,7 @@ def cases(ctx):
     n = ctx.split(4000 if quick else 16 * 30000)
     for i in range(n):
         yield {"kind": "one", "source": gen_source(rng), "mapping": gen_mapping(rng),
-               "template": rng.choice(["none", "none", "blank", "sparse", "with_charts", "empty", "subclass", "legacy_alias"]),
+               "template": rng.choice(["none", "none", "blank", "sparse", "with_charts", "empty", "subclass", "legacy_alias", "with_equal_chart"]),
                "chart_template": rng.choice(["none", "none", "blank", "custom", "subclass"])}
     # all 4^5 mappings on small simfiles
     smalls = ctx.split(2 if quick else 64)
@@ -222,11 +222,23 @@ def build(source):
     return s
 
 
-def templates(case):
+def templates(case, ssc=None):
     from simfile.sm import SMChart, SMSimfile
 
     st = ct = None
     t = case.get("template", "none")
+    if t == "with_equal_chart":
+        # the template already carries a chart whose six fields equal those of the source's first chart
+        # (an earlier export of the same song): the result has the template's charts AND every source chart
+        st = SMSimfile.blank()
+        tc = SMChart.blank()
+        if case.get("chart_template") == "custom":
+            tc = SMChart.from_msd(["tpl-steps", "tpl desc", "Edit", "1", "9,9", "tpl notes"])
+        if ssc is not None and ssc.charts:
+            for k in M.SIX:
+                if ssc.charts[0].get(k) is not None:
+                    tc[k] = ssc.charts[0][k]
+        st.charts.append(tc)
     if t == "blank":
         st = SMSimfile.blank()
     elif t == "sparse":
@@ -262,8 +274,8 @@ def run_one(ctx, source, mapping, case, label):
     from simfile.convert import InvalidPropertyBehavior, InvalidPropertyException, PropertyType, ssc_to_sm
     from simfile.sm import SMChart, SMSimfile
 
-    st, ct = templates(case)
     ssc = build(source)
+    st, ct = templates(case, ssc)
     base = st if st is not None else SMSimfile.blank()
     cbase = ct if ct is not None else SMChart.blank()
     want = reference(source, mapping, list(base.items()), [dict(zip(M.SIX, [c[k] for k in M.SIX])) for c in base.charts],
@@ -360,6 +372,8 @@ def observe(ctx, source, mapping, case):
         ctx.feat("template_empty")
     if case.get("template") == "legacy_alias":
         ctx.feat("template_with_legacy_alias_keys")
+    if case.get("template") == "with_equal_chart":
+        ctx.feat("template_chart_equal_to_a_source_chart")
     if case.get("template") == "subclass" or case.get("chart_template") == "subclass":
         ctx.feat("template_is_an_instance_of_a_subclass")
     if any(its and its[-1][0] != "NOTES" and any(k == "NOTES" for k, _ in its) for its in source["charts"]):
